@@ -45,19 +45,18 @@ CLAIMED = {
     "C07": E("other", "Rule families over the generator for all schemas (template binding, free text into literals, literal tables, "
              "keyword table, name capture) plus standalone compilation of every generated header and a model-generated "
              "touch-everything TU for 24 schemas.", "DESIGN.md 3/C07",
-             "Compilability of schemas outside the corpus beyond the rule families is not decided. Known findings: name capture (Byte/args/last).",
+             "Compilability of schemas outside the corpus beyond the rule families is not decided.",
              "template lint + def-use taint on AST facts, compile witnesses"),
     "C08": E("other", "Each of the 65 throw sites is dominated by exactly its hand-confirmed guard (strictness included); traversal "
              "reaches every position; memo caches belong to one validator (G-CACHE); required-rule table (G-REQ: known gaps D13/D15/D17); exit status mapping; the 24 valid boundary schemas are accepted.", "DESIGN.md 3/C08",
              "Acceptance of every rule-abiding schema in general is not decided.",
              "structural dominance + normalised guard table (G-GUARD), call-graph requirements (G-CALL), cache-exclusivity shape rule (G-CACHE)"),
     "C09": E("other", "Every enumerated hazard call site has a dominating guard or a recorded invariant linked to a live validator "
-             "check; format strings are literals with bound fields; main covers std::exception; include recursion rule (known "
-             "finding).", "DESIGN.md 3/C09", "UB in general, pugixml internals, memory exhaustion, other hang shapes not decided.",
+             "check; format strings are literals with bound fields; main covers std::exception; include recursion rule.", "DESIGN.md 3/C09", "UB in general, pugixml internals, memory exhaustion, other hang shapes not decided.",
              "hazard enumeration with resolved callees + guard-or-invariant rule (G-HAZ), template lint (G-TPL), cache-exclusivity shape rule (G-CACHE)"),
     "C10": E("other", "On every path of every public operation each buffer access is preceded by an asserted bound that covers exactly "
              "the accessed bytes on the accessed base (R-CHK); a data-dependent move of a view's own ptr is covered by an asserted ptr' <= end (R-CHK.step); configuration truth table of SBEPP_SIZE_CHECKS_ENABLED.",
-             "DESIGN.md 3/C10", TB + "Operation sequences follow operation-by-operation only. Known findings: length narrowing in data assign*.",
+             "DESIGN.md 3/C10", TB + "Operation sequences follow operation-by-operation only.",
              "path-sensitive affine/effect dataflow with dominance + linear implication (R-CHK)"),
     "C11": E("proof", "Type checker as prover: generated negative witnesses for every mutating call form of every entity, conversion "
              "witnesses, and the no-const-removing-cast rule over all instantiations.", "DESIGN.md 3/C11",
@@ -65,7 +64,7 @@ CLAIMED = {
              "compile-fail witnesses + AST cast rule"),
     "C12": E("other", "Affine rows for group bases / iterators / cursor ranges for all 16 dimension pairs (laws hold as algebra over "
              "the rows) plus R-INT on every pointer-offset computation and difference_type conversion.", "DESIGN.md 3/C12",
-             TB + "Known findings: narrow difference_type (D16).", "spec rows over E2 summaries + interval arithmetic (R-INT)"),
+             TB, "spec rows over E2 summaries + interval arithmetic (R-INT)"),
     "C13": E("other", "Only per-operation clauses are decided (the vector-model equivalence over operation sequences is a property of "
              "histories, not applicable to this family): exact write footprint, new length, returned iterator and precondition "
              "strictness of every <data> mutator for all length types / byte orders / element types of the corpus.",
